@@ -9,7 +9,7 @@ MODULE = "IwModel.Props.C03"
 THEOREMS = ["IwModel.C03." + t for t in (
     "sblk_roundtrip_over", "sblk_roundtrip", "sblk_enc_bytes", "kvindex_roundtrip", "kv_roundtrip",
     "dbhdr_roundtrip_over", "dbhdr_roundtrip", "fsmhdr_roundtrip", "fsm_layout_total",
-    "holds_after_writes", "node_roundtrip", "node_contents_roundtrip", "reopen_contents", "reopen_records")]
+    "holds_after_writes", "node_roundtrip", "node_contents_roundtrip", "reopen_contents", "reopen_records", "reopen_db")]
 MANIFEST = dict(
     level="proof",
     text=("Reopen is modelled as 'parse the closed file': theorems relate the Lean format reader to the contents (codec round trips), and the "
